@@ -18,6 +18,7 @@ func init() {
 			"C13.2": "every success return of Resize is preceded by WriteObjectHeader of the header whose dataspace message was re-encoded from newDims, and by the stores to dims, dataSize, chunkCoordinator",
 			"C13.3": "no failure exit of Resize is reachable after the header was rewritten or the new shape adopted",
 			"C13.4": "CreateDataset compares each maxDims[i] with dims[i] and requires chunking before the first allocation",
+			"C13.5": "the length of the encoded dataspace message depends only on the rank and on whether maximum dimensions are present, never on extent values: Resize rewrites the header in place and the chunk-index address is patched at a byte offset fixed at creation",
 		},
 	}, ruleC13)
 	// the cached header pointer counts as handle state (a stale cache is written back by later calls); the exits below lie behind its load
@@ -218,6 +219,81 @@ func ruleC13(c *Ctx, r *Result) {
 		r.Check(chunkReq, "C13.4", c.Name(cd)+"#resizable-requires-chunking", c.Pos(cd.Pos()), "a dataset with maxDims and no chunk dimensions is rejected")
 	}
 	r.Floor("C13.4", 3)
+
+	// --- C13.5 encoded length is value-independent
+	if enc := c.Fn(r, "core.EncodeDataspaceMessage"); enc != nil && len(enc.Params) >= 2 {
+		bad := ""
+		isDimsParam := func(v ssa.Value) bool {
+			return v == ssa.Value(enc.Params[0]) || v == ssa.Value(enc.Params[1])
+		}
+		// values that carry extent VALUES: element loads of the two slices, and results of calls that receive the slices
+		var tainted func(v ssa.Value, d int) bool
+		tainted = func(v ssa.Value, d int) bool {
+			if d > 8 {
+				return false
+			}
+			switch x := v.(type) {
+			case *ssa.UnOp:
+				if ia, ok := x.X.(*ssa.IndexAddr); ok && isDimsParam(ia.X) {
+					return true
+				}
+				return tainted(x.X, d+1)
+			case *ssa.BinOp:
+				return tainted(x.X, d+1) || tainted(x.Y, d+1)
+			case *ssa.Convert:
+				return tainted(x.X, d+1)
+			case *ssa.Phi:
+				for _, e := range x.Edges {
+					if tainted(e, d+1) {
+						return true
+					}
+				}
+			case *ssa.Extract:
+				return tainted(x.Tuple, d+1)
+			case *ssa.Call:
+				if b, ok := x.Call.Value.(*ssa.Builtin); ok && (b.Name() == "len" || b.Name() == "cap") {
+					return false
+				}
+				for _, a := range x.Call.Args {
+					if isDimsParam(a) || tainted(a, d+1) {
+						return true
+					}
+				}
+			}
+			return false
+		}
+		// every branch that can influence the allocation of the output buffer must be value-independent
+		var mk *ssa.MakeSlice
+		instrs(enc, func(in ssa.Instruction) {
+			if m, ok := in.(*ssa.MakeSlice); ok && mk == nil {
+				mk = m
+			}
+		})
+		if mk == nil {
+			r.Undec("C13.5", c.Name(enc)+"#no-buffer-allocation", c.Pos(enc.Pos()), "no make found")
+		} else {
+			for _, b := range enc.Blocks {
+				ifi, ok := b.Instrs[len(b.Instrs)-1].(*ssa.If)
+				if !ok || !canReach(ifi, mk) {
+					continue
+				}
+				// branches whose both arms rejoin before the make and only lead to error returns on one side are still fine if value independent
+				if tainted(ifi.Cond, 0) {
+					// an error exit on invalid values is fine: only flag when both successors can reach the make
+					r0 := reachableFrom(b.Succs[0], nil)[mk.Block()]
+					r1 := reachableFrom(b.Succs[1], nil)[mk.Block()]
+					if r0 && r1 {
+						bad = c.InstrPos(ifi)
+					}
+				}
+			}
+			if tainted(mk.Len, 0) {
+				bad = c.InstrPos(mk)
+			}
+			r.Check(bad == "", "C13.5", c.Name(enc)+"#length-independent-of-extents", c.InstrPos(mk), "no branch before the buffer allocation (and not its size) depends on the values of dims/maxDims "+bad)
+		}
+	}
+	r.Floor("C13.5", 1)
 }
 
 // elemOfField: v is a load of an element of the slice held in the named field.
